@@ -1,6 +1,6 @@
 import importlib
 
-MODULES = ['traversal', 'equality', 'payload', 'locks', 'registry_cxx']
+MODULES = ['traversal', 'equality', 'payload', 'locks', 'registry_cxx', 'safety']
 
 
 def load_all():
